@@ -3540,6 +3540,8 @@ func UnmarshalSRSegments(s []*api.TunnelEncapSubTLVSRSegmentList_Segment) ([]bgp
 				}
 			}
 			segments[i] = seg
+		default:
+			return nil, fmt.Errorf("invalid segment type: %T", v)
 		}
 	}
 	return segments, nil
